@@ -12,7 +12,7 @@ from .common import CapSim, guarded, fingerprint, first_diff, Summary
 
 PROFILE = {'p_lattice': 0.0, 'p_exact': 0.0, 'horizons': [10.0, 20.0, 30.0], 'p_renege': 0.3, 'p_prio': 0.5,
            'p_kinds': (0.6, 0.1, 0.2, 0.1)}
-BUDGET = {'quick': 120, 'thorough': 3000}
+BUDGET = {'quick': 240, 'thorough': 4000}
 
 
 def server_stats(Q):
